@@ -17,6 +17,9 @@ from .core import HarnessError
 from .hidsim import (BusLine, FakeGlob, FakeOS, FakeRandom, HassebGW, Latency,
                      TridonicGW)
 from .loop import SimDeadlock, SimLivelock, SimStepCap
+import signal
+
+SPIN_CPU_S = 3
 from .serialsim import FakeSerialAsyncio, LubaGW, SciGW
 from .world import ScriptedBus, World
 
@@ -411,6 +414,16 @@ def run(plan, hooks=None):
         if "finish" in hooks:
             await hooks["finish"](rr)
 
+    # a task step that never returns to the loop and never touches a seam (a retry
+    # loop around an exception raised before any I/O) cannot be seen by the loop:
+    # after SPIN_CPU_S of process CPU time inside one run - normal runs take
+    # milliseconds - the spinning step is interrupted with SimLivelock
+    def _spin(signum, frame):
+        world.probe("spin-interrupted")
+        signal.setitimer(signal.ITIMER_VIRTUAL, SPIN_CPU_S)      # the next spinning step gets its own allowance
+        raise SimLivelock("no return to the event loop for %d s of CPU time" % SPIN_CPU_S)
+    old_handler = signal.signal(signal.SIGVTALRM, _spin)
+    signal.setitimer(signal.ITIMER_VIRTUAL, SPIN_CPU_S)
     try:
         try:
             world.loop.run_until_complete(main())
@@ -425,6 +438,8 @@ def run(plan, hooks=None):
         rr.vtime = world.loop.time()
         rr.final = snapshot(plan, getattr(rr, "driver", None))
     finally:
+        signal.setitimer(signal.ITIMER_VIRTUAL, 0)
+        signal.signal(signal.SIGVTALRM, old_handler)
         try:
             world.loop.shutdown()
         finally:
